@@ -136,9 +136,11 @@ Section Generic.
               | (x2, None) => (x2, d1, PassOk lft results, acc1)
               | (x2, Some i) =>
                   if x_cancelled x2 i then
+                    (* dropped, and reported to its listeners as Cancelled *)
                     let d2 := {| sd_suspend := sd_suspend d1; sd_syscall := sd_syscall d1;
                                  sd_sys_suspend := sd_sys_suspend d1; sd_gone := i :: sd_gone d1 |} in
-                    do_schedule f (x_uncancel x2 i) d2 deadline results acc1
+                    let '(x3, e) := x_change (x_uncancel x2 i) i Cancelled in
+                    do_schedule f x3 d2 deadline results (acc1 ++ e)
                   else
                     let '(x3, r, e) := x_resume x2 i in
                     let acc2 := acc1 ++ e in
